@@ -300,7 +300,12 @@ def concurrent_calls(thunks, switch_interval=1e-5, barrier=True):
 CONCURRENT_DISSIMS = [{"kind": "positional", "delta": 1.0}, {"kind": "positional", "delta": 0.1},
                       {"kind": "combined", "alpha": 1.0, "beta": 1.0, "delta": 2.0, "pos": None, "cat": None},
                       {"kind": "absolute", "delta": 1.0},
-                      {"kind": "combined", "alpha": 3.0, "beta": 0.5, "delta": 0.5, "pos": None, "cat": None}]
+                      {"kind": "combined", "alpha": 3.0, "beta": 0.5, "delta": 0.5, "pos": None, "cat": None},
+                      # a declared category set larger than the continuum's: labels get other indices than with the label-free classes
+                      {"kind": "precomputed", "cats": ["A0", "a", "b", "b2", "c", "d"], "delta": 1.0,
+                       "matrix": [[0.0 if i == j else (0.25 + 0.125 * abs(i - j)) for j in range(6)] for i in range(6)]},
+                      {"kind": "combined", "alpha": 1.0, "beta": 2.0, "delta": 1.0, "pos": None,
+                       "cat": {"kind": "ordinal", "cats": ["c", "a", "zz", "b", "A"], "p": None, "delta": 1.0}}]
 
 
 def gen_concurrent_case(rng, kind):
